@@ -135,6 +135,8 @@ struct Env {
     refs: Vec<RefSeq>,
     complete_up_to: usize,
     devs: DevSet,
+    /// also run every region through the async reader
+    async_side: bool,
 }
 
 fn body(ch: &Chooser, env: &Env, streams: &[usize], layouts: &[Option<usize>]) -> Outcome {
@@ -412,7 +414,10 @@ fn run_queries(
                     Ok(out)
                 })
             };
-            let async_got: Result<std::io::Result<Vec<Rec>>, (String, String)> = vmc::catch(|| {
+            let async_got: Result<std::io::Result<Vec<Rec>>, (String, String)> = if !env.async_side {
+                Ok(Ok(Vec::new()))
+            } else {
+                vmc::catch(|| {
                 vrt::block_on(async {
                     let mut q = areader.query(&aheader, &index, &region)?;
                     let mut out = Vec::new();
@@ -425,9 +430,13 @@ fn run_queries(
                     }
                     Ok(out)
                 })
-            });
+                })
+            };
             let must: Vec<&Rec> = scan.iter().filter(|x| want(x, rid, a, b) == Want::Must).collect();
             for (api, got) in [("sync", sync_got), ("async", async_got)] {
+                if api == "async" && !env.async_side {
+                    continue;
+                }
                 let viol = |outcome: &str, expected: String, observed: String| {
                     Err(Violation::new(
                         format!("op=query api={api} index={which_index} layout={} region={kind} outcome={outcome}", fp_layout(multi)),
@@ -791,6 +800,26 @@ fn body_sequences(ch: &Chooser, env: &Env, streams: &[usize]) -> Outcome {
     Ok(())
 }
 
+/// Development filter: `C19_ONLY=<substring>` runs the matching harnesses only.
+struct Filtered<'a> {
+    ctx: &'a mut vmc::Ctx,
+    only: String,
+}
+
+impl Filtered<'_> {
+    fn harness<F>(&mut self, cfg: Config, body: F)
+    where
+        F: Fn(&Chooser) -> Outcome + Sync,
+    {
+        if self.only.is_empty() || cfg.name.contains(&self.only) {
+            self.ctx.harness(cfg, body);
+        }
+    }
+    fn quick(&self) -> bool {
+        self.ctx.quick()
+    }
+}
+
 fn main() {
     vmc::run("C19", "model_checking", |ctx| {
         ctx.rule(
@@ -810,25 +839,31 @@ fn main() {
         ctx.assume("the async side runs on a Ready in-memory source under vrt::block_on; poll schedules are C16's subject");
         ctx.assume("verdicts use slices_per_container = 1 only (the value the real writer hard-codes)");
         let refs = refs::references();
+        let only = std::env::var("C19_ONLY").unwrap_or_default();
+        let mut ctx = Filtered { ctx, only };
+        let ctx = &mut ctx;
         // streams: single, multi, pairs, pairs-special
         if ctx.quick() {
             // quick: breakpoint regions on every reference here (the answer can only change at a
             // breakpoint); all [a,b] on the 24 bp reference in shapes_regions and in the thorough tier
-            let env = Env { refs: refs.clone(), complete_up_to: 0, devs: DevSet::GEOMETRY };
+            let env = Env { refs: refs.clone(), complete_up_to: 0, devs: DevSet::GEOMETRY, async_side: true };
             ctx.harness(Config::new("layouts_regions_k1", 1), |ch| body(ch, &env, &[0, 1, 2, 3], &LAYOUTS));
-            let env0 = Env { refs: refs.clone(), complete_up_to: 24, devs: DevSet::NONE };
+            let env0 = Env { refs: refs.clone(), complete_up_to: 24, devs: DevSet::NONE, async_side: true };
             ctx.harness(Config::new("shapes_regions", 0), |ch| body(ch, &env0, &[6], &SHAPE_LAYOUTS));
-            ctx.harness(Config::new("reader_sequences", 0), |ch| body_sequences(ch, &env, &[1, 3]));
+            // `single` has no unplaced read: query_unmapped on a file without an unplaced index entry
+            ctx.harness(Config::new("reader_sequences", 0), |ch| body_sequences(ch, &env, &[0, 1, 3]));
         } else {
-            let env = Env { refs: refs.clone(), complete_up_to: 60, devs: DevSet::GEOMETRY };
+            let env = Env { refs: refs.clone(), complete_up_to: 60, devs: DevSet::GEOMETRY, async_side: true };
             ctx.harness(Config::new("layouts_regions_k1_complete60", 1), |ch| body(ch, &env, &[0, 1, 2, 3], &LAYOUTS));
-            let env2 = Env { refs: refs.clone(), complete_up_to: 24, devs: DevSet::GEOMETRY };
-            let env0 = Env { refs: refs.clone(), complete_up_to: 60, devs: DevSet::NONE };
+            let env2 = Env { refs: refs.clone(), complete_up_to: 24, devs: DevSet::GEOMETRY, async_side: true };
+            // the k = 2 harnesses query through the sync readers only (the async side is complete at k = 1)
+            let env2s = Env { refs: refs.clone(), complete_up_to: 24, devs: DevSet::GEOMETRY, async_side: false };
+            let env0 = Env { refs: refs.clone(), complete_up_to: 60, devs: DevSet::NONE, async_side: true };
             ctx.harness(Config::new("shapes_regions", 0), |ch| body(ch, &env0, &[6], &SHAPE_LAYOUTS));
             ctx.harness(Config::new("shapes_regions_k1", 1), |ch| body(ch, &env2, &[6], &[None, Some(3)]));
             ctx.harness(Config::new("reader_sequences", 0), |ch| body_sequences(ch, &env, &[0, 1, 2, 3, 6]));
-            ctx.harness(Config::new("layouts_regions_k2_multi", 2), |ch| body(ch, &env2, &[1], &[None, Some(2)]));
-            ctx.harness(Config::new("layouts_regions_k2_single", 2), |ch| body(ch, &env2, &[0], &[Some(1), Some(3)]));
+            ctx.harness(Config::new("layouts_regions_k2_multi", 2), |ch| body(ch, &env2s, &[1], &[None, Some(2)]));
+            ctx.harness(Config::new("layouts_regions_k2_single", 2), |ch| body(ch, &env2s, &[0], &[Some(1), Some(3)]));
         }
     });
 }
